@@ -270,6 +270,9 @@ impl<TStdlib: Stdlib, TStdIn: Input, TStdOut: Printer, TLpt1: Printer> Interpret
                             self.last_error_address = Some(i);
                             self.last_error_depths =
                                 (self.register_stack.len(), self.value_stack.len());
+                            // the handler gets its own registers: the interrupted FOR loop
+                            // keeps its limit and step in the current ones
+                            self.register_stack.push(Registers::new());
                             i = handler_address;
                         }
                         ErrorHandler::Next => {
